@@ -6,6 +6,7 @@ use loom::sync::{Condvar, Mutex};
 use serde_json::{json, Value};
 use std::collections::{BTreeMap, BTreeSet, HashMap};
 use std::sync::atomic::{AtomicUsize, Ordering};
+macro_rules! outln { ($($a:tt)*) => { { use std::io::Write; let _ = writeln!(std::io::stdout(), $($a)*); } } }
 
 static ITERS: AtomicUsize = AtomicUsize::new(0);
 static EVENTS: AtomicUsize = AtomicUsize::new(0);
@@ -184,7 +185,7 @@ fn child(cfg: Config, bound: Option<usize>, fail_file: String) {
         *oc.lock().unwrap().entry(outs).or_insert(0) += 1;
     });
     let o = outcomes.lock().unwrap();
-    println!("RESULT {}", json!({"config": name, "threads": cfg.len(), "bound": bound, "schedules": ITERS.load(Ordering::SeqCst), "sync_events": EVENTS.load(Ordering::SeqCst), "distinct_outcomes": o.len(), "sequential_reference_outcomes": ref_n, "schedules_with_an_intermediate_state_observed": nonjoint.load(Ordering::Relaxed), "secs": t0.elapsed().as_secs_f64(), "time_cap_hit": t0.elapsed().as_secs() >= cap_secs}));
+    outln!("RESULT {}", json!({"config": name, "threads": cfg.len(), "bound": bound, "schedules": ITERS.load(Ordering::SeqCst), "sync_events": EVENTS.load(Ordering::SeqCst), "distinct_outcomes": o.len(), "sequential_reference_outcomes": ref_n, "schedules_with_an_intermediate_state_observed": nonjoint.load(Ordering::Relaxed), "secs": t0.elapsed().as_secs_f64(), "time_cap_hit": t0.elapsed().as_secs() >= cap_secs}));
 }
 
 fn configs(tier: &str) -> Vec<(Config, Option<usize>)> {
@@ -259,7 +260,7 @@ fn main() {
     let results = results.into_inner().unwrap(); let failures = failures.into_inner().unwrap();
     if replay.is_some() {
         let kinds: Vec<String> = failures.iter().map(|f| f["failure"]["kind"].as_str().unwrap_or("").to_string()).collect();
-        println!("REPLAY property=C20 reproduced={} runs={} kinds={:?}", !failures.is_empty(), cfgs.len(), kinds);
+        outln!("REPLAY property=C20 reproduced={} runs={} kinds={:?}", !failures.is_empty(), cfgs.len(), kinds);
         if failures.len() == 1 { eprintln!("MACHINERY: replay verdict not reproducible"); std::process::exit(2) }
         std::process::exit(if failures.is_empty() { 0 } else { 1 });
     }
@@ -270,8 +271,8 @@ fn main() {
         let path = format!("{dir}/{}.json", sig.chars().map(|c| if c.is_ascii_alphanumeric() { c } else { '_' }).collect::<String>().chars().take(120).collect::<String>());
         let mut rec = f.clone(); rec["property"] = json!("C20"); rec["signature"] = json!(sig); rec["replay_cmd"] = json!(format!("./check C20 --replay {path}"));
         let _ = std::fs::write(&path, serde_json::to_string_pretty(&rec).unwrap());
-        if let Some((_, what)) = known.iter().find(|(k, _)| k == sig) { println!("KNOWN-FINDING: property=C20 key={sig} {what}"); known_met.push(json!({"key": sig})) }
-        else { println!("VIOLATION property=C20 replay={path}"); println!("  signature: {sig}\n  what: {}\n  occurrences: {n}", f["failure"]["message"].as_str().unwrap_or("").chars().take(300).collect::<String>()); unlisted += 1; viols.push(json!({"signature": sig, "replay": path})) }
+        if let Some((_, what)) = known.iter().find(|(k, _)| k == sig) { outln!("KNOWN-FINDING: property=C20 key={sig} {what}"); known_met.push(json!({"key": sig})) }
+        else { outln!("VIOLATION property=C20 replay={path}"); outln!("  signature: {sig}\n  what: {}\n  occurrences: {n}", f["failure"]["message"].as_str().unwrap_or("").chars().take(300).collect::<String>()); unlisted += 1; viols.push(json!({"signature": sig, "replay": path})) }
     }
     let schedules: u64 = results.iter().map(|r| r["schedules"].as_u64().unwrap_or(0)).sum();
     let events: u64 = results.iter().map(|r| r["sync_events"].as_u64().unwrap_or(0)).sum();
@@ -297,7 +298,7 @@ fn main() {
             "loom explores sequentially consistent interleavings at the seam's lock/once operations; the crate has no unsafe code, atomics or other interior mutability"]});
     let _ = std::fs::create_dir_all(format!("{root}/evidence"));
     std::fs::write(format!("{root}/evidence/C20.json"), serde_json::to_string_pretty(&ev).unwrap()).expect("write evidence");
-    println!("C20 {tier} level=model_checking configurations={} schedules={schedules} sync_events={events} distinct_outcomes={outcomes} failed_configurations={} unlisted_violations={unlisted} wall={:.1}s", results.len(), failures.len(), t0.elapsed().as_secs_f64());
+    outln!("C20 {tier} level=model_checking configurations={} schedules={schedules} sync_events={events} distinct_outcomes={outcomes} failed_configurations={} unlisted_violations={unlisted} wall={:.1}s", results.len(), failures.len(), t0.elapsed().as_secs_f64());
     if results.is_empty() && failures.is_empty() { eprintln!("MACHINERY: nothing explored"); std::process::exit(2) }
     std::process::exit(if unlisted > 0 { 1 } else { 0 });
 }
